@@ -7,7 +7,11 @@ Two views are produced from a font FILE (bytes):
 
   name views   (reorder)   per glyph name a dict field -> frozen value; per table key -> frozen value
   scale views  (scale_upem) per table a flat list of leaves (path, kind, value, h) with
-               kind "I" (must be identical) or "D" (design-unit number, bound h/2, see ScaleUpem.tla)
+               kind "I" (must be identical), "D" (design-unit number, bound h/2, see ScaleUpem.tla),
+               "E" (a derived extent whose inputs are rounded reals on both sides: the trace builder adds
+               4 + 4*ceil(k) to h) or "M" (CFF FontMatrix * upem, must stay put); pen coordinates are
+               recorded in half units (path suffix "x2"); a leaf ("I", "non-integer-coordinates") marks a
+               glyph / entry whose numbers are fractional before scaling (dropped on both sides, counted)
 """
 import io
 
@@ -845,6 +849,7 @@ def scale_views(font, data, glyph_names=None):
     maxn = 1
     depth = 0
     transformed = False
+    matched = False
     if "glyf" in font:
         glyf = font["glyf"]
         memo = {}
@@ -854,6 +859,10 @@ def scale_views(font, data, glyph_names=None):
             depth = max(depth, _comp_depth(glyf, n, memo))
             if g.isComposite() and any(hasattr(c, "transform") for c in g.components):
                 transformed = True
+            if g.isComposite() and any(hasattr(c, "firstPt") for c in g.components):
+                # point matching: the component's offset is itself a difference of two points, so a point of the
+                # composite is made of four separately rounded numbers per level instead of two
+                matched = True
         maxn_, nonint = _pen_leaves(font, names, False, out)
         info["nonint"] += nonint
         for n in names:
@@ -868,7 +877,7 @@ def scale_views(font, data, glyph_names=None):
                 out.append((("glyf", n, "flags"), "I", bytes(b & 0x41 for b in g.flags), 0))
                 out.append((("glyf", n, "endPts"), "I", tuple(g.endPtsOfContours), 0))
             if g.numberOfContours != 0 and not (g.isComposite() and transformed):
-                h = 1 + (memo.get(n, 0) if g.isComposite() else 0)
+                h = (1 + memo.get(n, 0)) * (4 if matched else 1) if g.isComposite() else 1
                 for a in ("xMin", "yMin", "xMax", "yMax"):
                     out.append((("glyf", n, a), "D", getattr(g, a, 0), h))
         V["glyf"] = out
@@ -945,7 +954,7 @@ def scale_views(font, data, glyph_names=None):
                 V["CFF2@corner%d" % ci] = out
             except Exception as e:
                 info["skipped"].append("CFF2 corner outline: %s" % type(e).__name__)
-    bb = maxn if is_cff else 1 + depth + (1 if transformed else 0)
+    bb = maxn if is_cff else (1 + depth) * (4 if matched else 1) + (1 if transformed else 0)
     info["bb"] = bb      # how many separately rounded numbers an outline extent of this font is made of
     if "head" in font:
         # CFF: head's box is recomputed on save from the charstrings as intRect(real extremum of the curves): kind "E"
